@@ -286,15 +286,42 @@ pub fn check_ir_program(base: &ir::Project, rep: &mut Report) {
     }
 }
 
+/// Lifting and all passes of one program run on a helper thread with a CPU-time bound (normal: milliseconds).
+const PROGRAM_CPU_LIMIT_MS: u64 = 20_000;
+
+fn bounded(worker: &mut BoundedWorker, rep: &mut Report, f: impl FnOnce(&mut Report) + Send + 'static, case: impl FnOnce() -> Value) {
+    let r = worker.run(PROGRAM_CPU_LIMIT_MS, move || {
+        let mut local = Report::new();
+        f(&mut local);
+        local
+    });
+    match r {
+        Bounded::Done(local) => rep.merge(local),
+        Bounded::Hang { cpu_ms, stage } => {
+            rep.eval();
+            let stage = if stage.is_empty() { "lift-or-normalize_basic".to_string() } else { stage };
+            rep.violation(format!("{stage}:no-termination"), None, format!("{stage} had not returned after {cpu_ms} ms of CPU time on a generated program (normal: a few milliseconds); abandoned"), case(), 50);
+        }
+        Bounded::Starved => rep.inconclusive("helper-thread-starved"),
+        Bounded::Died => rep.inconclusive("helper-thread-died"),
+    }
+}
+
 fn run(cfg: &Cfg) -> Report {
     let shards = cfg.tier.pick(128usize, 1024usize);
     let per_shard = cfg.tier.pick(1500usize, 1500usize);
     par_shards(cfg, "c12", shards, |idx, rng, rep| {
+        let mut worker = BoundedWorker::new();
         for i in 0..per_shard {
+            if ABANDONED_THREADS.load(std::sync::atomic::Ordering::SeqCst) >= ABANDONED_CAP {
+                rep.inconclusive("program-skipped-after-repeated-non-termination");
+                continue;
+            }
             if idx % 4 == 3 {
                 match guard(|| c10::gen_project(rng, false, false)) {
                     Ok(p) => {
-                        check_ir_program(&p, rep);
+                        let p2 = p.clone();
+                        bounded(&mut worker, rep, move |local| check_ir_program(&p2, local), || json!({"workload":"ir","project": project_to_json(&p)}));
                         rep.obs("workload:ir");
                     }
                     Err(msg) => rep.inconclusive(&format!("generator-or-normalize_basic-panic:{}", panic_site(&msg))),
@@ -308,7 +335,8 @@ fn run(cfg: &Cfg) -> Report {
                     rep.obs("workload:pcode:32-bit-target");
                 }
                 let text = serde_json::to_string(&prog).unwrap();
-                check_pcode_program(&text, rep);
+                let t2 = text.clone();
+                bounded(&mut worker, rep, move |local| check_pcode_program(&t2, local), || json!({"workload":"pcode","project": serde_json::from_str::<Value>(&text).unwrap_or(Value::Null)}));
                 rep.obs("workload:pcode");
                 if idx == 0 && i < 2 {
                     rep.sample(json!({"pcode_program": pproject_text(&prog)}));
